@@ -983,7 +983,11 @@ where
             }))
           }
           Err(TrySendError::Full(wc)) => {
+            #[cfg(rustdds_verif)]
+            crate::verif::sched::point("AsyncWrite.full.before_store_waker");
             *self.writer.cc_upload_waker.lock().unwrap() = Some(cx.waker().clone());
+            #[cfg(rustdds_verif)]
+            crate::verif::sched::point("AsyncWrite.full.after_store_waker");
             if Instant::now() < self.timeout_instant {
               // Put our command back
               self.writer_command = Some(wc);
@@ -1098,6 +1102,8 @@ where
           }) {
           Ok(()) => {
             *self = AsyncWaitForAcknowledgments::Waiting { ack_wait_receiver };
+            #[cfg(rustdds_verif)]
+            crate::verif::sched::point("AsyncWait.after_send");
             // Poll the receiver right away. This registers our waker, so that we
             // get woken up when the Writer signals completion. Returning Pending
             // without having registered a waker would leave us waiting forever.
